@@ -60,7 +60,7 @@ int rp_run (FILE *sched, const struct rp_harness *h, struct rp_stats *st, const 
 	char *line = NULL; size_t cap = 0;
 	struct lines cur = { 0, 0, 0 };
 	char prev[1024] = "", got[1024], why[256];
-	int in_tour = 0, diverged = 0, have_pending = 0, pend_actor = 0;
+	int in_tour = 0, diverged = 0, have_pending = 0, pend_actor = 0, free_sched = 0;
 	long pend_step = 0;
 	char pend_exp[1024] = "", pend_label[64] = "";
 	long tour_id = 0, stepno = 0;
@@ -75,7 +75,7 @@ int rp_run (FILE *sched, const struct rp_harness *h, struct rp_stats *st, const 
 			{ char tmp[1200]; snprintf (tmp, sizeof tmp, "T %ld %s\n", tour_id, init); push (&cur, tmp); }
 			rt_reset ();
 			h->setup (init);
-			in_tour = 1; diverged = 0; stepno = 0; nontrivial_flag = 0; prev[0] = 0; have_pending = 0;
+			in_tour = 1; diverged = 0; free_sched = 1; stepno = 0; nontrivial_flag = 0; prev[0] = 0; have_pending = 0;
 			st->tours++;
 		} else if (line[0] == 'S' && in_tour) {
 			int actor = 0, off = 0;
@@ -85,6 +85,7 @@ int rp_run (FILE *sched, const struct rp_harness *h, struct rp_stats *st, const 
 			if (sscanf (line, "S %d %63s %n", &actor, label, &off) < 2) continue;
 			exp = line + off;
 			line[strcspn (line, "\n")] = 0;
+			if (label[0] != '*' && actor != 0) free_sched = 0;
 			if (!(actor != 0 && strlen (label) > 2 && strcmp (label + strlen (label) - 2, "_l") == 0)) FLUSH_PENDING ();
 			stepno++; st->steps++;
 			if (actor == 0) {
@@ -131,7 +132,8 @@ int rp_run (FILE *sched, const struct rp_harness *h, struct rp_stats *st, const 
 		} else if (line[0] == 'E' && in_tour) {
 			FLUSH_PENDING ();
 			in_tour = 0;
-			h->finish (diverged);
+			/* a schedule recorded from a free-running exploration (labels "*") ends the way that exploration did: run everything to completion */
+			h->finish (diverged || (free_sched && stepno > 0));
 			if (diverged) st->diverged_tours++; else st->matched_tours++;
 			if (nontrivial_flag) st->nontrivial++;
 			if (rt_first_violation ()) {
